@@ -1364,3 +1364,40 @@ def c09(X, src):
 
 
 ORACLES.update({"c09": c09})
+
+
+def c07_sub_nested(X, pre, cmd, rest, post):
+    """a subprocess macro in ANY position: pre + cmd + '!' + rest + post, where pre opens the bracket that holds the macro (possibly nested in
+    other forms, e.g. '$(ls @$(') and post closes it and carries on (') -l)\\ny = 1').  Some call of the tree must receive exactly
+    [cmd, rest.strip()], and everything else must parse as it does with a macro-free command in the same place."""
+    if any(c in rest for c in "()[]{}'\"#\\`\n") or rest[:1] in ("=", "(", "["):
+        return None
+    src = f"{pre}{cmd}!{rest}{post}\n"
+    tk, toks = O.run_tokens(X, src)
+    if tk != "ok" or any(t.type == X.tokenize.Token.ERRORTOKEN for t in toks):
+        return None
+    k0, t0 = O.run_parse(X, f"{pre}{cmd} x{post}\n", "exec")
+    if k0 != "ok":
+        return None     # the surrounding text itself is not accepted: nothing to compare with
+    k, t = O.run_parse(X, src, "exec")
+    if k != "ok":
+        return {"kind": "subproc-macro-rejected", "observed": [k, O.exc_sig(t) if isinstance(t, BaseException) else None], "expected": [cmd, rest.strip()], "source": src}
+    want = [cmd, rest.strip()]
+
+    def consts(c):
+        return [a.value if isinstance(a, ast.Constant) else None for a in c.args]
+    hits = [c for c in ast.walk(t) if isinstance(c, ast.Call) and consts(c) == want]
+    if not hits:
+        return {"kind": "subproc-macro-arguments-differ", "observed": sorted({repr(consts(c)) for c in ast.walk(t) if isinstance(c, ast.Call)})[:6], "expected": want, "source": src}
+
+    def masked(tree, target):
+        for c in ast.walk(tree):
+            if isinstance(c, ast.Call) and consts(c) == target:
+                c.args[:] = [ast.Constant(value="<args>")]
+        return ast.dump(tree)
+    if masked(t, want) != masked(t0, [cmd, "x"]):
+        return {"kind": "code-around-subproc-macro-differs", "observed": masked(t, want)[:300], "expected": masked(t0, [cmd, "x"])[:300], "source": src}
+    return None
+
+
+ORACLES.update({"c07_sub_nested": c07_sub_nested})
